@@ -811,6 +811,14 @@ class Interp:
                     else:
                         break
             return mk_str(cs[lo:hi])
+        if name == "replace" and len(args) == 2 and all(isinstance(a, str) for a in args) and len(args[0]) == 1:
+            out = []
+            for c in self.chars(s):
+                if isinstance(c, FD):
+                    out.append(mk_fd([(g, (args[1] if v == args[0] else v)) for g, v in c.cases]))
+                else:
+                    out.append(args[1] if c == args[0] else c)
+            return mk_str(out)
         if name == "strip" and not args:
             cs = self.chars(s)
             lo = 0
